@@ -7,7 +7,7 @@
      Raises e   -- raises exception number e, an instance of Exception (caught by the loop)
      Escapes e  -- raises a BaseException that is not an Exception (KeyboardInterrupt,
                    SystemExit...): not caught, propagates out of authenticate *)
-From PV Require Import Bytes.
+From PV Require Import Bytes AuthShape C44_gen.
 Open Scope Z_scope.
 
 Inductive outcome := Returns (v : Z) | Raises (e : Z) | Escapes (e : Z).
@@ -51,6 +51,77 @@ Definition is_return (x : source) : bool := match snd x with Returns _ => true |
 (* every source of the list raised an exception the loop catches *)
 Definition all_raise (l : list source) : Prop := forallb is_raise l = true.
 
+(* ---- the shape of the source (Gen/C44_gen.v, read off the AST by gen/c44.py) -------------- *)
+(* what the hand-written loop above assumes about AuthStrategy.authenticate *)
+Definition expected_loop_shape : loop_shape :=
+  {| ls_single_loop := true; ls_calls_in_try := 1; ls_calls_elsewhere := 0;
+     ls_catch := CatchException; ls_success_sets_flag := true; ls_handler_records_exc := true;
+     ls_append_on_success := true; ls_append_on_failure := true; ls_append_is_source_result := true;
+     ls_append_before_break := true; ls_break_on_success := true; ls_raise_when_none := true;
+     ls_failure_carries_overall := true; ls_returns_overall := true;
+     ls_overall_is_authresult_of_self := true |}.
+
+(* "NoneAuth" -> auth_none, "Password" -> auth_password, the private key sources -> auth_publickey;
+   one transport call each, its value returned, first argument self.username *)
+Definition s_NoneAuth : list Z := [78;111;110;101;65;117;116;104].
+Definition s_Password : list Z := [80;97;115;115;119;111;114;100].
+Definition s_PrivateKey : list Z := [80;114;105;118;97;116;101;75;101;121].
+Definition s_InMemoryPrivateKey : list Z := [73;110;77;101;109;111;114;121] ++ s_PrivateKey.
+Definition s_OnDiskPrivateKey : list Z := [79;110;68;105;115;107] ++ s_PrivateKey.
+Definition s_auth_none : list Z := [97;117;116;104;95;110;111;110;101].
+Definition s_auth_password : list Z := [97;117;116;104;95;112;97;115;115;119;111;114;100].
+Definition s_auth_publickey : list Z := [97;117;116;104;95;112;117;98;108;105;99;107;101;121].
+Definition expected_source_facts : list source_fact :=
+  [(s_NoneAuth, s_auth_none, 1, true, true); (s_Password, s_auth_password, 1, true, true);
+   (s_PrivateKey, s_auth_publickey, 1, true, true); (s_InMemoryPrivateKey, s_auth_publickey, 1, true, true);
+   (s_OnDiskPrivateKey, s_auth_publickey, 1, true, true)].
+
+(* SourceResult = namedtuple("SourceResult", ["source", "result"]); AuthResult(list) keeps .strategy;
+   AuthFailure(AuthenticationException) keeps .result *)
+Definition expected_source_result_fields : list (list Z) :=
+  [[115;111;117;114;99;101]; [114;101;115;117;108;116]].
+Definition expected_auth_result_bases : list (list Z) := [[108;105;115;116]].
+Definition expected_auth_failure_bases : list (list Z) :=
+  [[65;117;116;104;101;110;116;105;99;97;116;105;111;110;69;120;99;101;112;116;105;111;110]].
+
+(* SSHClient.connect: `if auth_strategy is not None: return auth_strategy.authenticate(transport=t)`,
+   once, after t.start_client and before the old self._auth flow *)
+Definition expected_client_glue : client_glue :=
+  {| cg_calls := 1; cg_guard_is_not_none := true; cg_returns_result := true; cg_passes_transport := true;
+     cg_after_start_client := true; cg_before_old_flow := true |}.
+
+(* the loop again, but driven by a shape: which exceptions the handler catches, whether an entry
+   is appended for a success / for a caught failure, whether the loop breaks on success, whether
+   AuthFailure is raised when nothing succeeded.  With expected_loop_shape this is auth_loop
+   (lemma auth_loop_g_expected); the correspondence run evaluates it at src_loop_shape. *)
+Definition catches_exception (c : catch_kind) : bool :=
+  match c with CatchException | CatchBaseException => true | _ => false end.
+Definition catches_base (c : catch_kind) : bool :=
+  match c with CatchBaseException => true | _ => false end.
+
+Fixpoint auth_loop_g (sh : loop_shape) (srcs : list source) (overall : list source_result)
+         (succeeded : bool) : final :=
+  match srcs with
+  | [] => if succeeded || negb (ls_raise_when_none sh) then Success overall else AuthFailure overall
+  | (s, o) :: rest =>
+      match o with
+      | Returns v =>
+          let ov := if ls_append_on_success sh then overall ++ [(s, o)] else overall in
+          if ls_break_on_success sh then Success ov else auth_loop_g sh rest ov true
+      | Raises e =>
+          if catches_exception (ls_catch sh) then
+            auth_loop_g sh rest (if ls_append_on_failure sh then overall ++ [(s, o)] else overall) succeeded
+          else Propagated (1000 + e) overall s
+      | Escapes e =>
+          if catches_base (ls_catch sh) then
+            auth_loop_g sh rest (if ls_append_on_failure sh then overall ++ [(s, o)] else overall) succeeded
+          else Propagated e overall s
+      end
+  end.
+
+(* authenticate with the shape the source has now *)
+Definition authenticate_src (srcs : list source) : final := auth_loop_g src_loop_shape srcs [] false.
+
 (* ---- canonical output for the correspondence run -------------------------- *)
 Definition canon_outcome (o : outcome) : list Z :=
   match o with Returns v => [0; v] | Raises e => [1; e] | Escapes e => [2; e] end.
@@ -62,7 +133,7 @@ Definition canon_results (ov : list source_result) : list Z :=
 Definition events (f : final) : list Z := flat_map (fun s => [1; s; 2; s]) (called f).
 
 Definition run_auth (srcs : list source) : list Z :=
-  let f := authenticate srcs in
+  let f := authenticate_src srcs in
   match f with
   | Success ov => 0 :: canon_results ov
   | AuthFailure ov => 1 :: canon_results ov
